@@ -188,7 +188,15 @@ func genPauseSteps(r *Rng) []TimeStep {
 	for i := 0; i < n; i++ {
 		switch r.Intn(6) {
 		case 0:
-			st = append(st, TimeStep{JumpS: r.Pick2([]int{60, 3600, 7200, 86400, 125, 59})})
+			st = append(st, TimeStep{JumpS: r.Pick2([]int{60, 3600, 7200, 86400, 125, 59, 14400, 36000, 259200})})
+			if i == n-1 || r.Chance(1, 2) {
+				// resume after a suspend, then Ctrl-C within a second: the first tick after the jump must already
+				// have written everything that elapsed
+				st = append(st, TimeStep{AdvanceS: 1})
+				if r.Chance(1, 2) {
+					return st
+				}
+			}
 		case 1:
 			st = append(st, TimeStep{JumpS: -r.Pick2([]int{60, 1800, 3600, 86400, 30})})
 		case 2:
